@@ -1469,6 +1469,11 @@ func (t *tScreen) parseSgrMouse(buf *bytes.Buffer, evs *[]Event) (bool, bool) {
 			}
 			val *= 10
 			val += int(b[i] - '0')
+			if val > 1<<24 {
+				// far beyond any screen: stay there rather than
+				// wrap around to the other edge
+				val = 1 << 24
+			}
 			dig = true // stay in state
 
 		case ';':
